@@ -7,6 +7,7 @@ import (
 	"fmt"
 	"go/types"
 	"math/bits"
+	"os"
 	"strings"
 	"sync"
 
@@ -23,7 +24,7 @@ type Options struct {
 	Redirects     map[string]string // callee (ssa.Function.String()) -> model function in the harness package
 	Havoc         []string          // name prefixes whose calls return zero values
 	Fatal         []string          // name prefixes whose calls end the path like os.Exit
-	Globals       map[string]string // not used yet
+	Pure          []string          // side-effect-free functions to summarise (merged into one term per call)
 }
 
 type handler func(fr *frame, args []value) (value, bool)
@@ -106,27 +107,39 @@ func (e *Engine) lookupFunc(name string) *ssa.Function {
 	if !strings.ContainsAny(name, "./") {
 		return e.Pkg.Func(name)
 	}
-	e.fnIndexOnce.Do(func() {
-		e.fnIndex = map[string]*ssa.Function{}
-		for _, p := range e.Prog.AllPackages() {
-			for _, m := range p.Members {
-				switch m := m.(type) {
-				case *ssa.Function:
-					e.fnIndex[m.String()] = m
-				case *ssa.Type:
-					for _, T := range []types.Type{m.Type(), types.NewPointer(m.Type())} {
-						ms := e.Prog.MethodSets.MethodSet(T)
-						for i := 0; i < ms.Len(); i++ {
-							if f := e.Prog.MethodValue(ms.At(i)); f != nil {
-								e.fnIndex[f.String()] = f
-							}
-						}
-					}
-				}
-			}
+	// "(*pkg/path.T).M", "(pkg/path.T).M" or "pkg/path.F"
+	if strings.HasPrefix(name, "(") {
+		close := strings.Index(name, ").")
+		if close < 0 {
+			return nil
 		}
-	})
-	return e.fnIndex[name]
+		recv, meth := name[1:close], name[close+2:]
+		ptr := strings.HasPrefix(recv, "*")
+		recv = strings.TrimPrefix(recv, "*")
+		dot := strings.LastIndex(recv, ".")
+		if dot < 0 {
+			return nil
+		}
+		pkg := e.Prog.ImportedPackage(recv[:dot])
+		if pkg == nil {
+			return nil
+		}
+		T := pkg.Type(recv[dot+1:])
+		if T == nil {
+			return nil
+		}
+		var rt types.Type = T.Type()
+		if ptr {
+			rt = types.NewPointer(rt)
+		}
+		return e.Prog.LookupMethod(rt, pkg.Pkg, meth)
+	}
+	dot := strings.LastIndex(name, ".")
+	pkg := e.Prog.ImportedPackage(name[:dot])
+	if pkg == nil {
+		return nil
+	}
+	return pkg.Func(name[dot+1:])
 }
 
 // ---------------------------------------------------------------------------
@@ -431,4 +444,24 @@ func vpCrashPoint(fr *frame, args []value) (value, bool) {
 	r := fr.i.run
 	n := r.concInt(args[1], "crash-n")
 	return r.rangeVar(argName(args[0]), 0, n), true
+}
+
+func (e *Engine) isPure(fn *ssa.Function) bool {
+	if len(e.Opts.Pure) == 0 {
+		return false
+	}
+	e.pureOnce.Do(func() {
+		e.pureSet = map[*ssa.Function]bool{}
+		for _, name := range e.Opts.Pure {
+			if f := e.lookupFunc(name); f != nil {
+				e.pureSet[f] = true
+				if os.Getenv("VP_DEBUG") != "" {
+					fmt.Fprintf(os.Stderr, "pure: %s -> %p\n", name, f)
+				}
+			} else {
+				e.sharedErr += "pure function not found: " + name + "\n"
+			}
+		}
+	})
+	return e.pureSet[fn]
 }
